@@ -12,13 +12,16 @@ CFLAGS = "-O1 -g -fsanitize=address -fno-omit-frame-pointer -fno-optimize-siblin
 # second variant: ThreadSanitizer build of the library, used only by the data-race scan of the controlled-scheduler checks
 # third variant: source-coverage build (no sanitizer), only used by tools/coverage.py to find library code no check drives
 CFLAGS_COV = "-O0 -g -fprofile-instr-generate -fcoverage-mapping -D%s -Wno-error" % GUARD
+# fourth variant: the configuration users run (gcc, RelWithDebInfo = -O2 -g -DNDEBUG, no sanitizer). Compiler-dependent
+# behaviour (e.g. a store the optimiser drops as dead) only shows there.
+CFLAGS_REL = "-O2 -g -DNDEBUG -D%s -Wno-error" % GUARD
 CFLAGS_TSAN = "-O1 -g -fsanitize=thread -fno-omit-frame-pointer -D%s -Wno-error" % GUARD
 KEEP = 8            # plus: never prune a directory used within the last 90 minutes (concurrent checks / worktrees)
 
 
 def tree_hash(variant="asan"):
     h = hashlib.sha256()
-    h.update({"asan": CFLAGS, "tsan": CFLAGS_TSAN, "cov": CFLAGS_COV}[variant].encode())
+    h.update({"asan": CFLAGS, "tsan": CFLAGS_TSAN, "cov": CFLAGS_COV, "rel": CFLAGS_REL}[variant].encode())
     roots = ["source", "include", "cmake", "CMakeLists.txt"]
     for r in roots:
         p = os.path.join(REPO, r)
@@ -73,9 +76,10 @@ def ensure_lib(variant="asan"):
         os.makedirs(bdir)
         log("[build] library for tree %s" % th)
         cfg = [
-            "cmake", "-G", "Ninja", "-S", REPO, "-B", bdir, "-DCMAKE_C_COMPILER=clang", "-DCMAKE_BUILD_TYPE=None",
+            "cmake", "-G", "Ninja", "-S", REPO, "-B", bdir, "-DCMAKE_C_COMPILER=" + ("gcc" if variant == "rel" else "clang"),
+            "-DCMAKE_BUILD_TYPE=None",
             "-DBUILD_TESTING=OFF", "-DAWS_WARNINGS_ARE_ERRORS=OFF",
-            "-DCMAKE_C_FLAGS=" + {"asan": CFLAGS, "tsan": CFLAGS_TSAN, "cov": CFLAGS_COV}[variant],
+            "-DCMAKE_C_FLAGS=" + {"asan": CFLAGS, "tsan": CFLAGS_TSAN, "cov": CFLAGS_COV, "rel": CFLAGS_REL}[variant],
         ]
         rc, out, err, to = run(cfg, timeout=600)
         if rc != 0:
@@ -95,7 +99,7 @@ WRAP_SYMS = [
     "pthread_create", "pthread_join", "pthread_detach", "pthread_mutex_lock", "pthread_mutex_trylock",
     "pthread_mutex_unlock", "pthread_mutex_init", "pthread_mutex_destroy", "pthread_cond_init", "pthread_cond_destroy",
     "pthread_cond_wait", "pthread_cond_timedwait", "pthread_cond_signal",
-    "pthread_cond_broadcast", "clock_gettime", "nanosleep", "pthread_self", "pthread_equal", "posix_memalign",
+    "pthread_cond_broadcast", "clock_gettime", "nanosleep", "pthread_self", "pthread_equal", "posix_memalign", "free",
 ]
 
 
@@ -129,10 +133,12 @@ def build_harness(name, srcs, cflags=None, ldflags=None, wrap=False, includes=No
             base = CFLAGS.split()
         elif variant == "cov":
             base = CFLAGS_COV.split() + ["-DVH_NO_ASAN", "-DVH_COV"]
+        elif variant == "rel":
+            base = ["-O1", "-g", "-D" + GUARD, "-DVH_NO_ASAN"]
         else:
             # harness code itself is NOT instrumented (its own bookkeeping is shared on purpose); only linked with the runtime
             base = ["-O1", "-g", "-fno-omit-frame-pointer", "-fno-builtin", "-D" + GUARD, "-DVS_TSAN"]
-        cmd = ["clang"] + base + ["-std=gnu11", "-D_GNU_SOURCE",
+        cmd = ["gcc" if variant == "rel" else "clang"] + base + ["-std=gnu11", "-D_GNU_SOURCE",
                "-I", os.path.join(REPO, "include"), "-I", os.path.join(bdir, "generated", "include"),
                "-I", os.path.join(HARNESS, "core"), "-I", HARNESS]
         for i in includes or []:
